@@ -23,7 +23,11 @@ CONSTANTS Names,      \* sequence of asset names (the job list)
           W,
           Locked,     \* TRUE: the report guards its shared state (code since the fix)
           Truncating, \* TRUE: comparator int(b - a) (pinned commit); FALSE: cmp.Compare
-          Outcomes    \* set of outcome values in tenths of a percentage point (comparator part)
+          Outcomes,   \* set of outcome values in tenths of a percentage point (comparator part)
+          TwoSectionEnd, \* TRUE: AssetEnd as HTMLReport codes it - one critical section takes the asset's results, a second
+                         \*       one (after sorting and logging) records its best result
+          StaleBest      \* TRUE: a variant that reads the list of best results in the FIRST section and writes "what it
+                         \*       read + its own" in the second (a lost update when two AssetEnd calls overlap); FALSE = the code
 
 Workers == 1..W
 NameSet == {Names[i] : i \in 1..Len(Names)}
@@ -38,7 +42,7 @@ VARIABLES phase,    \* "begin" | "run" | "end" | "over"
 
 vars == <<phase, queue, wk, results, begun, ended, best, log>>
 
-Idle == [pc |-> "take", a |-> "", s |-> 0]
+Idle == [pc |-> "take", a |-> "", s |-> 0, seen |-> <<>>]
 
 Init == /\ phase = "begin" /\ queue = Names /\ wk = [w \in Workers |-> Idle]
         /\ results = [a \in NameSet |-> <<>>] /\ begun = {} /\ ended = {} /\ best = <<>> /\ log = <<>>
@@ -49,7 +53,7 @@ Begin == /\ phase = "begin" /\ phase' = "run" /\ log' = Append(log, <<"begin">>)
 Take(w) ==
   /\ phase = "run" /\ wk[w].pc = "take"
   /\ IF queue = <<>> THEN wk' = [wk EXCEPT ![w].pc = "done"] /\ UNCHANGED queue
-     ELSE wk' = [wk EXCEPT ![w] = [pc |-> "get", a |-> Head(queue), s |-> 0]] /\ queue' = Tail(queue)
+     ELSE wk' = [wk EXCEPT ![w] = [pc |-> "get", a |-> Head(queue), s |-> 0, seen |-> <<>>]] /\ queue' = Tail(queue)
   /\ UNCHANGED <<phase, results, begun, ended, best, log>>
 
 GetSince(w) ==
@@ -86,15 +90,17 @@ Write2(w) ==
 \* report.AssetEnd: (HTML) delete the map entry, sort, append the best result to bestResults
 AssetEnd(w) ==
   /\ wk[w].pc = "aend"
-  /\ IF Locked
+  /\ IF Locked /\ ~TwoSectionEnd
      THEN /\ ended' = ended \cup {wk[w].a} /\ best' = Append(best, wk[w].a)
           /\ log' = Append(log, <<"assetend", wk[w].a>>)
           /\ wk' = [wk EXCEPT ![w] = Idle]
-     ELSE /\ wk' = [wk EXCEPT ![w].pc = "aend2"] /\ UNCHANGED <<ended, best, log>>
+     ELSE \* first section: the asset's results are taken out of the map (and, in the StaleBest variant, the list is read)
+          /\ wk' = [wk EXCEPT ![w].pc = "aend2", ![w].seen = best] /\ UNCHANGED <<ended, best, log>>
   /\ UNCHANGED <<phase, queue, results, begun>>
 AssetEnd2(w) ==
   /\ wk[w].pc = "aend2"
-  /\ ended' = ended \cup {wk[w].a} /\ best' = Append(best, wk[w].a)
+  /\ ended' = ended \cup {wk[w].a}
+  /\ best' = IF StaleBest THEN Append(wk[w].seen, wk[w].a) ELSE Append(best, wk[w].a)
   /\ log' = Append(log, <<"assetend", wk[w].a>>)
   /\ wk' = [wk EXCEPT ![w] = Idle]
   /\ UNCHANGED <<phase, queue, results, begun>>
@@ -131,7 +137,7 @@ SameForAnyW == Over => (begun = Present /\ ended = Present /\ {best[i] : i \in 1
 Termination == <>Over
 
 \* workers that are about to perform / are inside an unsynchronised mutation of the report's shared state
-RacePcs == {"abegin", "write2", "aend2"}
+RacePcs == {"abegin", "write2", "aend2"}      \* (aend2 under a lock is a critical section of its own, not a race)
 NoDataRace == Locked \/ Cardinality({w \in Workers : wk[w].pc \in RacePcs}) <= 1
 
 -----------------------------------------------------------------------------
